@@ -83,6 +83,14 @@ CHECKS['C07'] = ('exploration',
          'these and on every primitive-constructor output; unit / zero / skew predicates against their definitions outside the 1e-6 band.',
          'Rejection is demanded only for distance > 1e-6 (polar decomposition distance, infinite for det < 0). Non-finite inputs are outside the quantifier.',
          'DESIGN.md 3/C07')
+CHECKS['C08'] = ('exploration',
+         'exhaustive pair table: every ordered pair of ~47 operand letters x 10 operators against the documented operator table',
+         'All ordered pairs of the 16 public classes (single- and 3-valued), int/float/np.float64 scalars, conforming and non-conforming '
+         'arrays and lists, under * / + - ** @ == != ^ |, applied through the operator module so reflected methods take part; each cell is '
+         'judged by the transcribed documentation table (must-return class + value, may-return class, must-raise).',
+         'The oracle table (DESIGN.md appendix A) is a hand transcription of README / intro.rst / operator docstrings; cells the property leaves '
+         'open are only recorded. One value letter per class and length.',
+         'DESIGN.md 3/C08, appendix A')
 PENDING = {}
 
 def main():
